@@ -28,8 +28,9 @@ MAX_SAMPLES_PER_SHARD = 2
 MAX_OUTCOMES_PER_SHARD = 20000
 
 
-class Hang(Exception):
-    pass
+class Hang(BaseException):
+    """raised by the watchdog; a BaseException so that neither `except Exception` in the library (is_sequence_valid) nor
+    the harness's own call wrapper can swallow it and carry on with the next call of a hanging state"""
 
 
 def _alarm(signum, frame):
@@ -87,11 +88,12 @@ def run_case(mod, case):
     """Run one state against the implementation with a watchdog.  Returns Ctx."""
     ctx = Ctx(case)
     signal.signal(signal.SIGALRM, _alarm)
-    signal.setitimer(signal.ITIMER_REAL, CASE_TIMEOUT_S)
+    horizon = case.get('_timeout') if isinstance(case, dict) else None
+    signal.setitimer(signal.ITIMER_REAL, float(horizon or getattr(mod, 'CASE_TIMEOUT_S', CASE_TIMEOUT_S)))
     try:
         mod.check(case, ctx)
     except Hang:
-        ctx.fail('hang', f'terminates within {CASE_TIMEOUT_S}s', 'watchdog fired')
+        ctx.fail('hang', 'terminates within the watchdog horizon', 'watchdog fired')
     except RecursionError as e:
         ctx.fail('harness-or-recursion', None, e)
     except Exception as e:  # an exception escaping check() is a harness error unless the check handles it
@@ -122,6 +124,12 @@ _worker_state = {}
 
 
 def _worker_init():
+    try:  # a runaway state (endless loop growing a list) must die with MemoryError instead of exhausting the machine
+        import resource
+        lim = int(os.environ.get('VERIF_WORKER_MEM_GB', '6')) * (1 << 30)
+        resource.setrlimit(resource.RLIMIT_AS, (lim, lim))
+    except Exception:
+        pass
     lib.pt()
     _worker_state['digest'] = _global_digest()
     _worker_state['rnd'] = random.getstate()
